@@ -1377,6 +1377,57 @@ impl State {
   }
 }
 
+// ---- facts about "no active mapping mentions k" and the frame lemmas used by newly_press ----
+spec fn no_mention_upto(am: Seq<Mapping>, n: int, k: KeyCode) -> bool { forall|j: int| 0 <= j < n && j < am.len() ==> !(#[trigger] am[j]).to@.contains(k) && !am[j].from@.contains(k) }
+spec fn no_mention(am: Seq<Mapping>, k: KeyCode) -> bool { no_mention_upto(am, am.len() as int, k) }
+
+proof fn lemma_nm_sub(a: Seq<Mapping>, b: Seq<Mapping>, k: KeyCode)
+  requires am_sub(a, a.len() as int, b), no_mention(b, k)
+  ensures no_mention(a, k)
+{
+  assert forall|j: int| 0 <= j < a.len() implies !(#[trigger] a[j]).to@.contains(k) && !a[j].from@.contains(k) by {
+    assert(b.contains(a[j])); let j0 = choose|j0: int| 0 <= j0 < b.len() && b[j0] == a[j]; assert(!(b[j0]).to@.contains(k));
+  }
+}
+
+proof fn lemma_nm_not_mo(st: State, k: KeyCode)
+  requires j1(st), no_mention(st.active_mappings@, k)
+  ensures !st.mapped_output_keys@.contains(k), !out_of(st.active_mappings@, k)
+{
+  if out_of(st.active_mappings@, k) { let j = choose|j: int| 0 <= j < st.active_mappings@.len() && #[trigger] st.active_mappings@[j].to@.contains(k); assert(false); }
+}
+
+// release_action_mappings only shrinks mapped_output_keys
+proof fn lemma_frame_ram(a: State, b: State)
+  requires b.active_mappings@ == a.active_mappings@, b.input_pressed_keys@ == a.input_pressed_keys@, b.pass_through_keys@ == a.pass_through_keys@,
+    sub(b.mapped_output_keys@, a.mapped_output_keys@),
+  ensures j1(a) ==> j1(b), j2(a) ==> j2(b), j3(a) ==> j3(b), j4(a) ==> j4(b), j6(a) ==> j6(b)
+{}
+
+// k goes to pass-through while no active mapping mentions it
+proof fn lemma_pass_key(a: State, b: State, k: KeyCode)
+  requires b.active_mappings@ == a.active_mappings@, b.input_pressed_keys@ == a.input_pressed_keys@, b.mapped_output_keys@ == a.mapped_output_keys@,
+    b.pass_through_keys@ == a.pass_through_keys@.push(k), no_mention(a.active_mappings@, k),
+  ensures j1(a) ==> j1(b), j3(a) ==> j3(b), j4(a) ==> j4(b), j6(a) ==> j6(b),
+    forall|x: KeyCode| #[trigger] b.pass_through_keys@.contains(x) ==> x == k || a.pass_through_keys@.contains(x),
+{
+  lemma_push_contains(a.pass_through_keys@, k);
+  if j6(a) { assert forall|x: KeyCode| #[trigger] b.pass_through_keys@.contains(x) implies !out_of(b.active_mappings@, x) by {
+      if x == k { if out_of(a.active_mappings@, k) { let j = choose|j: int| 0 <= j < a.active_mappings@.len() && #[trigger] a.active_mappings@[j].to@.contains(k); assert(false); } } else { assert(a.pass_through_keys@.contains(x)); } } }
+  if j4(a) { assert forall|x: KeyCode, j: int| #![trigger b.pass_through_keys@.contains(x), b.active_mappings@[j]] b.pass_through_keys@.contains(x) && 0 <= j < b.active_mappings@.len() implies !b.active_mappings@[j].from@.contains(x) by {
+      if x != k { assert(a.pass_through_keys@.contains(x)); } } }
+}
+
+// k is appended to input_pressed_keys; every pass-through key other than k was pressed before
+proof fn lemma_press_ip(a: State, b: State, k: KeyCode)
+  requires b.active_mappings@ == a.active_mappings@, b.pass_through_keys@ == a.pass_through_keys@, b.mapped_output_keys@ == a.mapped_output_keys@,
+    b.input_pressed_keys@ == a.input_pressed_keys@.push(k),
+    forall|x: KeyCode| #[trigger] a.pass_through_keys@.contains(x) ==> x == k || a.input_pressed_keys@.contains(x),
+  ensures j1(a) ==> j1(b), j2(b), j4(a) ==> j4(b), j6(a) ==> j6(b)
+{
+  lemma_push_contains(a.input_pressed_keys@, k);
+}
+
 fn newly_press(mapper: &mut Mapper, k: KeyCode) -> (res: StepResult)
   requires wf(old(mapper).state), j1(old(mapper).state), j2(old(mapper).state), j3(old(mapper).state), j4(old(mapper).state), j6(old(mapper).state), !old(mapper).state.input_pressed_keys@.contains(k),
     nonempty_from(old(mapper).state.active_mappings@), hl_ok(old(mapper).layout),
@@ -1390,6 +1441,7 @@ fn newly_press(mapper: &mut Mapper, k: KeyCode) -> (res: StepResult)
         && repeat_matches(group(old(mapper).layout, k)[i].repeat, res.repeat),
     none_fired(group(old(mapper).layout, k), old(mapper).state, k) ==> res.repeat is Disabled,
 {
+  hide(j4); hide(j6); hide(nonempty_from); hide(from_in); hide(am_sub); hide(sup);
   let mappings = &mapper.layout.mappings;
   let mut state = &mut mapper.state;
   
@@ -1417,7 +1469,7 @@ fn newly_press(mapper: &mut Mapper, k: KeyCode) -> (res: StepResult)
       } } }
   state.repeating_trigger = None;
   
-  proof { assert(held(*state) =~= h0); assert(j1(*state)); assert(j2(*state)); assert(j3(*state)); assert(j4(*state)); assert(j6(*state)); }
+  proof { assert(held(*state) =~= h0); assert(j1(*state)); assert(j2(*state)); assert(j3(*state)); assert(j4(*state)) by { reveal(j4); } assert(j6(*state)) by { reveal(j6); } }
   let ghost ab1 = state.mapped_absorbed_keys@; let ghost at1 = state.absorbing_trigger;
   let ghost st0 = old(mapper).state; let ghost g = group(old(mapper).layout, k);
   proof {
@@ -1471,6 +1523,7 @@ fn newly_press(mapper: &mut Mapper, k: KeyCode) -> (res: StepResult)
     {
       proof { assert(*mapping == mappings@[mappings@.len() - 1 - it.index@]);
         assert(supported_spec(mapping.from@, st0.input_pressed_keys@, absorbed_keys@, k) <==> sup(*mapping, st0, k)) by {
+          reveal(sup);
           assert forall|f: KeyCode| absorbed_keys@.contains(f) <==> abs_now(st0, k, f) by {}
           if supported_spec(mapping.from@, st0.input_pressed_keys@, absorbed_keys@, k) {
             assert forall|j: int| 0 <= j < mapping.from@.len() implies ((st0.input_pressed_keys@.contains(#[trigger] mapping.from@[j]) && !abs_now(st0, k, mapping.from@[j])) || mapping.from@[j] == k) by {}
@@ -1504,13 +1557,14 @@ fn newly_press(mapper: &mut Mapper, k: KeyCode) -> (res: StepResult)
     for m in it: &state.active_mappings
       invariant
         !any_hit ==> (state.pass_through_keys@ == old(mapper).state.pass_through_keys@ && state.mapped_output_keys@ == old(mapper).state.mapped_output_keys@ && state.active_mappings@ == old(mapper).state.active_mappings@ && state.input_pressed_keys@ == old(mapper).state.input_pressed_keys@ && state.mapped_absorbed_keys@ == ab1 && state.absorbing_trigger == at1 && res.events@.len() == 0 && res.repeat is Disabled),
-        !any_hit ==> forall|j: int| 0 <= j < it.index@ ==> !(#[trigger] state.active_mappings@[j]).to@.contains(k) && !state.active_mappings@[j].from@.contains(k),
+        !any_hit ==> no_mention_upto(state.active_mappings@, it.index@ as int, k),
         wf(*state), apply(h0, res.events@) == Some(held(*state)), !(res.repeat is NoChange), j1(*state), j2(*state), j4(*state), j6(*state), nonempty_from(state.active_mappings@),
         it.seq().len() == state.active_mappings@.len(),
         forall|j: int| 0 <= j < state.active_mappings@.len() ==> *it.seq()[j] == state.active_mappings@[j],
       ensures
-        !any_hit ==> forall|j: int| 0 <= j < state.active_mappings@.len() ==> !(#[trigger] state.active_mappings@[j]).to@.contains(k) && !state.active_mappings@[j].from@.contains(k),
+        !any_hit ==> no_mention(state.active_mappings@, k),
     {
+      proof { reveal(no_mention_upto); }
       if m.from.contains(&k) {
         any_hit = true;
         break;
@@ -1520,54 +1574,44 @@ fn newly_press(mapper: &mut Mapper, k: KeyCode) -> (res: StepResult)
         break;
       }
     }
+    proof { reveal(no_mention_upto); }
   }
   
-  proof {
-    if !any_hit {
-      assert forall|j: int| 0 <= j < old(mapper).state.active_mappings@.len() implies !(#[trigger] old(mapper).state.active_mappings@[j]).to@.contains(k) && !old(mapper).state.active_mappings@[j].from@.contains(k) by {
-        assert(state.active_mappings@[j] == old(mapper).state.active_mappings@[j]);
-      }
-    }
-  }
   if !any_hit {
     if !state.pass_through_keys.contains(&k) {
+      proof { assert(no_mention(state.active_mappings@, k)); assert(j3(*state)); }
       if is_action_key(&k) {
-        let ghost e0 = res.events@; let ghost hm0 = held(*state);
+        let ghost e0 = res.events@; let ghost hm0 = held(*state); let ghost s_a = *state;
         res.events.append(&mut release_action_mappings(&mut state));
-        proof { let c = choose|c: Seq<Event>| res.events@ == e0 + c && apply(hm0, c) == Some(held(*state)); lemma_apply_append(h0, e0, c); assert(j1(*state)); assert(j2(*state)); assert(j3(*state)); assert(j4(*state)); assert(j6(*state)); assert(nonempty_from(state.active_mappings@)); }
-        let ghost e1 = res.events@; let ghost am_pre = state.active_mappings@; let ghost e1x = res.events@; let ghost hm1 = held(*state);
+        proof { let c = choose|c: Seq<Event>| res.events@ == e0 + c && apply(hm0, c) == Some(held(*state)); lemma_apply_append(h0, e0, c);
+          lemma_frame_ram(s_a, *state); }
+        let ghost e1 = res.events@; let ghost am_pre = state.active_mappings@; let ghost hm1 = held(*state);
         res.events.append(&mut release_absorbed_keys(&mut state));
-        proof { let c = choose|c: Seq<Event>| res.events@ == e1 + c && apply(hm1, c) == Some(held(*state)); lemma_apply_append(h0, e1, c); assert(j1(*state)); assert(j2(*state)); assert(j3(*state)); assert(j4(*state)); assert(j6(*state)); lemma_nonempty_sub(state.active_mappings@, am_pre);
-          assert(!out_of(state.active_mappings@, k)) by { if out_of(state.active_mappings@, k) { lemma_out_of_sub(state.active_mappings@, am_pre, k); let j = choose|j: int| 0 <= j < am_pre.len() && #[trigger] am_pre[j].to@.contains(k); assert(am_pre[j] == old(mapper).state.active_mappings@[j]); } }
-          assert forall|j: int| 0 <= j < state.active_mappings@.len() implies !(#[trigger] state.active_mappings@[j]).from@.contains(k) by { assert(am_pre.contains(state.active_mappings@[j])); let j0 = choose|j0: int| 0 <= j0 < am_pre.len() && am_pre[j0] == state.active_mappings@[j]; assert(am_pre[j0] == old(mapper).state.active_mappings@[j0]); } }
+        proof { let c = choose|c: Seq<Event>| res.events@ == e1 + c && apply(hm1, c) == Some(held(*state)); lemma_apply_append(h0, e1, c);
+          lemma_nonempty_sub(state.active_mappings@, am_pre);
+          lemma_nm_sub(state.active_mappings@, am_pre, k); }
       }
       
-      let ghost e2 = res.events@; let ghost pt2 = state.pass_through_keys@;
+      let ghost e2 = res.events@; let ghost pt2 = state.pass_through_keys@; let ghost s_b = *state;
       proof { lemma_ts(pt2, k); lemma_ts(state.mapped_output_keys@, k);
-        assert(!old(mapper).state.mapped_output_keys@.contains(k)) by {
-          if old(mapper).state.mapped_output_keys@.contains(k) {
-            let j = choose|j: int| 0 <= j < old(mapper).state.active_mappings@.len() && #[trigger] old(mapper).state.active_mappings@[j].to@.contains(k);
-            assert(false);
-          }
-        }
-        assert(!state.mapped_output_keys@.contains(k));
+        lemma_nm_not_mo(*state, k);
         assert(!pt2.contains(k));
       }
-      let ghost need_mo = true;
       res.events.push(Pressed(k));
       state.pass_through_keys.push(k);
       proof { assert(res.events@.drop_last() =~= e2); lemma_push_set(pt2, k); lemma_push_nodup(pt2, k); lemma_push_contains(pt2, k);
-        assert(held(*state) =~= (pt2.to_set().union(state.mapped_output_keys@.to_set())).insert(k)); }
-      proof { assert(j6(*state)) by { assert forall|x: KeyCode| #[trigger] state.pass_through_keys@.contains(x) implies !out_of(state.active_mappings@, x) by { if x != k { assert(pt2.contains(x)); } } }
-        assert(j4(*state)) by { assert forall|x: KeyCode, j: int| #![trigger state.pass_through_keys@.contains(x), state.active_mappings@[j]] state.pass_through_keys@.contains(x) && 0 <= j < state.active_mappings@.len() implies !state.active_mappings@[j].from@.contains(x) by { if x != k { assert(pt2.contains(x)); } } } }
+        assert(held(*state) =~= (pt2.to_set().union(state.mapped_output_keys@.to_set())).insert(k));
+        lemma_pass_key(s_b, *state, k); }
     }
   }
   
   let ghost ip0 = state.input_pressed_keys@;
+  let ghost st_pre = *state;
   state.input_pressed_keys.push(k);
   proof { lemma_push_contains(ip0, k);
-    assert(j2(*state)) by { assert forall|x: KeyCode| #[trigger] state.pass_through_keys@.contains(x) implies state.input_pressed_keys@.contains(x) by { if x != k { assert(ip0.contains(x)); } } }
+    lemma_press_ip(st_pre, *state, k);
     assert(j3(*state)) by {
+      reveal(from_in);
       assert forall|j: int| 0 <= j < state.active_mappings@.len() implies sub(#[trigger] state.active_mappings@[j].from@, state.input_pressed_keys@) by {
         if any_hit && j == state.active_mappings@.len() - 1 {
           assert forall|f: KeyCode| #[trigger] state.active_mappings@[j].from@.contains(f) implies state.input_pressed_keys@.contains(f) by { assert(state.active_mappings@.last().from@.contains(f)); }
